@@ -197,7 +197,7 @@ class View:
                 ix = [i for i, (_, ll, _) in enumerate(self.loci) if ll is l]
                 ev.append({'locus': ix[0] if ix else None,
                            'elements': None if ix else [(list(x) if isinstance(x, tuple) else x) for x in l],
-                           'pr': pr, 'rate': rate, 'same': l is l2})
+                           'pr': pr, 'rate': rate, 'same': l is l2, 'ltype': type(l).__name__})
             d['events'] = ev
             d['events_exc'] = None if len(dist) == len(rates) == len(self.d.perElementEventRateDistribution(0.0)) else 'length mismatch'
         except Exception as e:   # observable: e.g. KeyError on a stale edge
@@ -1046,6 +1046,11 @@ class H(Harness):
                 if not (lo <= ev['rate'] <= hi) or ev['rate'] != ev['pr'] * dump['lens'][i]:
                     v.append({'signature': 'rate:%s:%s' % (obs['loci_names'][i], opname),
                               'detail': {'rate': ev['rate'], 'pr': ev['pr'], 'eligible': len(T), 'eligible_undirected': len(T) - len(both) // 2}})
+            elif ev.get('ltype', 'SingletonLocus') != 'SingletonLocus':
+                # an event whose locus is none of the loci the dynamics holds (e.g. one left over from an earlier experiment):
+                # its rate is not the probability times the number of elements eligible NOW
+                v.append({'signature': 'rate:event-on-a-locus-the-dynamics-does-not-hold:%s' % opname,
+                          'detail': {'elements': ev['elements'], 'pr': ev['pr'], 'rate': ev['rate']}})
             else:
                 # SIR_VariableInfection: one singleton locus per SI edge
                 for x in ev['elements']:
